@@ -41,6 +41,7 @@ Section Ref.
         | None => (od_set (fold k) d m, OutV d)
         end
     | OUpdate e | OUpdateKw e => (od_setall (fold_items e) m, OutNone)
+    | OUpdateBoth e kw => (od_setall (fold_items kw) (od_setall (fold_items e) m), OutNone)
     | ORebuild | OCopy | ODeepCopy | OPickle => (m, OutB true)
     | OMoveToEnd k => if od_mem k m then (od_move_to_end k m, OutNone) else (m, OutKeyError)
     end.
